@@ -270,3 +270,7 @@ Print Assumptions C14_shutdown_refuted.
 Print Assumptions C14_shutdown_inflight_refuted.
 Print Assumptions C14_full_statement_refuted.
 Print Assumptions C14_full_statement_partial.
+Print Assumptions C14_scenario_example.
+Print Assumptions C14_pool_example.
+Print Assumptions C14_whole_example.
+Print Assumptions C14_schedule_example.
